@@ -231,7 +231,7 @@ def run_streams(tier):
 
 PROPS['C13'] = dict(
     family='line', tags={'B': 'run', 'L': 'run', 'G': 'run', 'H': 'run', 'E': 'run', 'O': 'run', 'F': 'divider', 'C': 'divider'},
-    theorems=['C13_expression_last', 'C13_expression_verbatim', 'C13_replace_crlf', 'C13_render_output', 'C13_capture_untouched', 'C13_capture_conserves_bytes', 'C13_divider_split_ideal', 'C13_script_reads_back', 'C13_strip_exactly_colour_sequences', 'C13_strip_leaves_plain_text'],
+    theorems=['C13_expression_last', 'C13_expression_verbatim', 'C13_replace_crlf', 'C13_render_output', 'C13_capture_untouched', 'C13_capture_conserves_bytes', 'C13_divider_split_ideal', 'C13_divider_split_salted', 'C13_divider_needle_never_straddles', 'C13_script_reads_back', 'C13_strip_exactly_colour_sequences', 'C13_strip_leaves_plain_text'],
     streams=run_streams,
     spec_kinds=['SPEC:C13'], corr_kinds=['DIFF:template', 'DIFF:crlf', 'DIFF:render_output', 'DIFF:capture', 'DIFF:divider', 'DIFF:script'],
     case_format='B <hex state dir> <hex name> <hex shell expression>|<exit>:<hex of the script the shell received (shell = /bin/cat)>   '
@@ -243,7 +243,7 @@ PROPS['C13'] = dict(
          'L: byte strings over CR, LF, ESC and letters for every keep_crlf/strip setting; G: 300 000 (thorough 1 000 000) CR LF pairs in a child process. '
          'O: 1-3 commands, each 1-3 writes to stdout/stderr of arbitrary bytes (NUL, invalid UTF-8, CRLF, divider/placeholder look-alikes, with and without final newline) and exit codes 0..255, through both executors with real /bin/bash, all output_stream settings. '
          'Non-trivial: every case; distinct by case text',
-    manifest=dict(text='Machine-checked theorems (Coq): (a) with the replace chain in the order regenerated from bash_runner.rs the expression is substituted last, hence the shell receives pre ++ expression ++ post with pre/post independent of the expression whenever the rest of the script holds the placeholder once (computable premise, discharged for generated state directories by the driver); (b) replace_crlf removes exactly the CRs that are followed by LF, for outputs of any length; render_output applies only CRLF translation (unless keep_crlf) and ANSI stripping (only under its flag); (d) the capture specification conserves bytes. Tied to /repo by reading back the script BashRunner really sends, by running replace_crlf/render_output, and by differential runs of both real executors with real bash on arbitrary payloads. Partial: bytes through pipes, merge order and exit codes are runtime behaviour (bash, subprocess crate, kernel) — decided only by the differential runs; (c) the Cram divider protocol: what an ideal bash prints for the compiled script is split back into exactly the payloads and exit codes (C13_divider_split_ideal, over a borderless-prefix string-search argument), tied to /repo by playing scripted streams -- ideal and malformed -- to the real BashScriptExecutor through a fake shell; the script of a Cram document (compile_script transcribed, with shell_escape) holds every expression verbatim before the echo of its divider and can be cut back into the expressions in order (C13_script_reads_back), and the script the real executor hands to its shell is compared byte for byte with the transcription.',
+    manifest=dict(text='Machine-checked theorems (Coq): (a) with the replace chain in the order regenerated from bash_runner.rs the expression is substituted last, hence the shell receives pre ++ expression ++ post with pre/post independent of the expression whenever the rest of the script holds the placeholder once (computable premise, discharged for generated state directories by the driver); (b) replace_crlf removes exactly the CRs that are followed by LF, for outputs of any length; render_output applies only CRLF translation (unless keep_crlf) and ANSI stripping (only under its flag); (d) the capture specification conserves bytes. Tied to /repo by reading back the script BashRunner really sends, by running replace_crlf/render_output, and by differential runs of both real executors with real bash on arbitrary payloads. Partial: bytes through pipes, merge order and exit codes are runtime behaviour (bash, subprocess crate, kernel) — decided only by the differential runs; (c) the Cram divider protocol: what an ideal bash prints for the compiled script is split back into exactly the payloads and exit codes (C13_divider_split_ideal, over a borderless-prefix string-search argument; C13_divider_split_salted: the payloads may even hold divider lines of another execution, only the needle prefix+salt+:: of this one must not occur, whose freedom from self-overlap is proved for every salt without ~ and :), tied to /repo by playing scripted streams -- ideal and malformed -- to the real BashScriptExecutor through a fake shell; the script of a Cram document (compile_script transcribed, with shell_escape) holds every expression verbatim before the echo of its divider and can be cut back into the expressions in order (C13_script_reads_back), and the script the real executor hands to its shell is compared byte for byte with the transcription.',
                   technique='Coq proof (string replace lemma + regenerated template/chain order; CRLF loop = declarative spec) + differential runs of the real executors with real bash',
                   note='Partial for the runtime half (pipes, merge order, exit codes, stack depth): exercised by differential runs only.'),
     exhaustive={'quick': False, 'thorough': False},
